@@ -4,7 +4,7 @@
 From stdpp Require Import gmap strings.
 From EV Require Import Base.Str Model.Value Model.Adapt Model.Keyspace Model.Reply Model.Prog.
 From EV Require Import Model.CmdList Model.CmdGeneric Model.CmdString Model.Dispatch.
-From EV Require Import Proofs.KeyspaceLemmas Proofs.ProgLemmas.
+From EV Require Import Proofs.KeyspaceLemmas Proofs.ProgLemmas Proofs.DispatchLemmas.
 Local Open Scope Z_scope.
 
 Ltac ro_step :=
@@ -138,4 +138,219 @@ Proof.
     try (eb; auto using eb_del_keys, eb_counter_step; fail).
   all: eb; auto using eb_del_keys, eb_counter_step.
   all: unfold expire_with_option; eb.
+Qed.
+
+(** * Hash, set and sorted-set handlers *)
+From EV Require Import Model.HashVal Model.CmdHash Model.CmdSet Model.ZSetOps Model.ZSetMulti Model.CmdZSet.
+
+Ltac chain_cases tac :=
+  repeat match goal with
+  | |- context [if ?b then _ else _] => destruct b eqn:?; [intros [= <-]; tac|]
+  end; try discriminate.
+
+Lemma nf_hash name h argv : hash_handler name = Some h -> noflushall (h argv).
+Proof.
+  unfold hash_handler.
+  chain_cases ltac:(unfold handle_hset, handle_hget, handle_hstrlen, handle_hvals, handle_hrandfield, handle_hlen,
+      handle_hkeys, handle_hincrby, handle_hgetall, handle_hexists, handle_hdel, hash_reader; nf).
+Qed.
+
+Lemma nf_read_sets_skip {R} ks : forall (k : list (gset string) -> prog R),
+  (forall l, noflushall (k l)) -> noflushall (read_sets_skip ks k).
+Proof. induction ks as [|key r IH]; intros k Hk; simpl; [apply Hk|]. nf; apply IH; intros; apply Hk. Qed.
+
+Lemma nf_existing_sets {R} ex ks : forall (k : scan_result -> prog R),
+  (forall x, noflushall (k x)) -> noflushall (existing_sets ex ks k).
+Proof.
+  induction ks as [|key r IH]; intros k Hk; simpl; [apply Hk|].
+  destruct (negb (ex key)); [apply IH; intros; apply Hk|]. nf; try apply Hk. apply IH; intros; apply Hk.
+Qed.
+
+Lemma nf_set pick name h argv : set_handler pick name = Some h -> noflushall (h argv).
+Proof.
+  unfold set_handler.
+  chain_cases ltac:(unfold handle_sadd, handle_scard, handle_sdiff, handle_sdiffstore, handle_sinter, handle_sintercard,
+      handle_sinterstore, handle_sismember, handle_smembers, handle_smismember, handle_smove, handle_spop,
+      handle_srandmember, handle_srem, handle_sunion, handle_sunionstore, WriteBack;
+      nf; try (intros; apply nf_read_sets_skip; nf); try (intros; apply nf_existing_sets; nf)).
+Qed.
+
+Lemma nf_run_act wkey a : noflushall (run_act wkey a).
+Proof. unfold run_act. nf. Qed.
+Lemma nf_run_zset dec argv : noflushall (run_zset dec argv).
+Proof. unfold run_zset, run_single, run_multi. nf; intros; apply nf_run_act. Qed.
+
+Lemma nf_zset name h argv : zset_handler name = Some h -> noflushall (h argv).
+Proof.
+  unfold zset_handler.
+  chain_cases ltac:(apply nf_run_zset).
+Qed.
+
+(** Every handler of every modelled module, for every argument vector: no FLUSHALL inside, unless the
+    command word is FLUSHALL itself. *)
+Theorem nf_every_handler name h argv :
+  handler_of name = Some h -> name <> "flushall" -> eq_fold (arg argv 0) "flushall" = false ->
+  noflushall (h argv).
+Proof.
+  rewrite DispatchLemmas.handler_of_unfold. intros Hh Hn Hw.
+  destruct (list_handler name) eqn:E1; [injection Hh as <-; by eapply nf_list|].
+  destruct (hash_handler name) eqn:E2; [injection Hh as <-; by eapply nf_hash|].
+  destruct (set_handler default_pick name) eqn:E3; [injection Hh as <-; by eapply nf_set|].
+  destruct (zset_handler name) eqn:E4; [injection Hh as <-; by eapply nf_zset|].
+  destruct (generic_handler name) eqn:E5; [injection Hh as <-; by eapply nf_generic|].
+  by eapply nf_string.
+Qed.
+
+(** * Read-only handlers of the hash, set and sorted-set modules *)
+Ltac ro' := repeat (intros; cbn -[Z.ltb Z.leb Z.eqb Nat.ltb Nat.eqb Nat.leb]; ro_step).
+
+Lemma ro_hash_reader dflt f argv : readonly (hash_reader dflt f argv).
+Proof. unfold hash_reader. ro. Qed.
+Lemma ro_hget argv : readonly (handle_hget argv). Proof. unfold handle_hget. ro. Qed.
+Lemma ro_hstrlen argv : readonly (handle_hstrlen argv). Proof. unfold handle_hstrlen. ro. Qed.
+Lemma ro_hrandfield argv : readonly (handle_hrandfield argv). Proof. unfold handle_hrandfield. ro. Qed.
+Lemma ro_hexists argv : readonly (handle_hexists argv). Proof. unfold handle_hexists. ro. Qed.
+Lemma ro_hvals argv : readonly (handle_hvals argv). Proof. apply ro_hash_reader. Qed.
+Lemma ro_hlen argv : readonly (handle_hlen argv). Proof. apply ro_hash_reader. Qed.
+Lemma ro_hkeys argv : readonly (handle_hkeys argv). Proof. apply ro_hash_reader. Qed.
+Lemma ro_hgetall argv : readonly (handle_hgetall argv). Proof. apply ro_hash_reader. Qed.
+
+Lemma ro_read_sets_skip {R} ks : forall (k : list (gset string) -> prog R),
+  (forall l, readonly (k l)) -> readonly (read_sets_skip ks k).
+Proof. induction ks as [|key r IH]; intros k Hk; simpl; [apply Hk|]. ro; apply IH; intros; apply Hk. Qed.
+Lemma ro_existing_sets {R} ex ks : forall (k : scan_result -> prog R),
+  (forall x, readonly (k x)) -> readonly (existing_sets ex ks k).
+Proof.
+  induction ks as [|key r IH]; intros k Hk; simpl; [apply Hk|].
+  destruct (negb (ex key)); [apply IH; intros; apply Hk|]. ro; try apply Hk. apply IH; intros; apply Hk.
+Qed.
+
+Lemma ro_scard argv : readonly (handle_scard argv). Proof. unfold handle_scard. ro. Qed.
+Lemma ro_sismember argv : readonly (handle_sismember argv). Proof. unfold handle_sismember. ro. Qed.
+Lemma ro_smembers argv : readonly (handle_smembers argv). Proof. unfold handle_smembers. ro. Qed.
+Lemma ro_smismember argv : readonly (handle_smismember argv). Proof. unfold handle_smismember. ro. Qed.
+Lemma ro_srandmember pick argv : readonly (handle_srandmember pick argv). Proof. unfold handle_srandmember. ro. Qed.
+Lemma ro_sunion argv : readonly (handle_sunion argv). Proof. unfold handle_sunion. ro. Qed.
+Lemma ro_sdiff argv : readonly (handle_sdiff argv).
+Proof. unfold handle_sdiff. ro. apply ro_read_sets_skip. intros. ro. Qed.
+Lemma ro_sinter argv : readonly (handle_sinter argv).
+Proof. unfold handle_sinter. ro; try (intros; apply ro_existing_sets; intros; ro). Qed.
+Lemma ro_sintercard argv : readonly (handle_sintercard argv).
+Proof. unfold handle_sintercard. ro; try (intros; apply ro_existing_sets; intros; ro). Qed.
+
+(** Sorted-set readers: the decoded action is a plain reply ([ZRet]) in every branch. *)
+Lemma ro_run_act_ret wkey r : readonly (run_act wkey (ZRet r)).
+Proof. simpl. constructor. Qed.
+
+Lemma ro_run_single d :
+  (forall a p, zd_body d = Some (a, p) -> (exists r, a = ZRet r) /\ forall z, exists r, p z = ZRet r) ->
+  readonly (run_single d).
+Proof.
+  intros H. unfold run_single. constructor. intros ex.
+  destruct (zd_body d) as [[a p]|] eqn:Hb; [|constructor].
+  destruct (H a p eq_refl) as [[r ->] Hp].
+  destruct (negb _); [apply ro_run_act_ret|]. constructor. intros vals.
+  destruct (as_zset _) as [z|]; [|constructor]. destruct (Hp z) as [r' ->]. apply ro_run_act_ret.
+Qed.
+
+Lemma ro_run_multi d :
+  (forall f, zm_body d = Some f -> forall seen, fst (f seen) = None) -> readonly (run_multi d).
+Proof.
+  intros H. unfold run_multi. constructor. intros ex.
+  destruct (zm_body d) as [f|] eqn:Hb; [|constructor]. constructor. intros vals. cbv zeta.
+  specialize (H f eq_refl). set (seen := map _ _). specialize (H seen).
+  destruct (f seen) as [[kz|] r]; simpl in H; [discriminate|]. apply ro_run_act_ret.
+Qed.
+
+Ltac ro_single dec :=
+  unfold run_zset, single, dec;
+  repeat match goal with |- context [if ?b then None else _] => destruct b end; simpl;
+  try apply ro_ret; apply ro_run_single; cbn [zd_body]; intros a p Hb;
+  repeat match type of Hb with
+  | (match ?x with _ => _ end) = _ => destruct x
+  | None = Some _ => discriminate
+  end; injection Hb as <- <-; split; [eexists; reflexivity|intros z; repeat match goal with |- context [if ?b then _ else _] => destruct b | |- context [match ?x with _ => _ end] => destruct x end; eexists; reflexivity].
+
+Lemma ro_zcard argv : readonly (handle_zcard argv). Proof. unfold handle_zcard. ro_single decode_zcard. Qed.
+Lemma ro_zscore argv : readonly (handle_zscore argv). Proof. unfold handle_zscore. ro_single decode_zscore. Qed.
+Lemma ro_zmscore argv : readonly (handle_zmscore argv). Proof. unfold handle_zmscore. ro_single decode_zmscore. Qed.
+Lemma ro_zcount argv : readonly (handle_zcount argv). Proof. unfold handle_zcount. ro_single decode_zcount. Qed.
+Lemma ro_zrank argv : readonly (handle_zrank argv). Proof. unfold handle_zrank. ro_single decode_zrank. Qed.
+Lemma ro_zlexcount argv : readonly (handle_zlexcount argv). Proof. unfold handle_zlexcount. ro_single decode_zlexcount. Qed.
+
+Lemma ro_zrange argv : readonly (handle_zrange argv).
+Proof.
+  unfold handle_zrange, run_zset, single, decode_zrange.
+  destruct (_ || _); simpl; [apply ro_ret|]. apply ro_run_single. cbn [zd_body]. intros a p Hb.
+  destruct (parse_zrange _ _ _) as [x|]; [|discriminate]. injection Hb as <- <-.
+  split; [eexists; reflexivity|intros z; eexists; reflexivity].
+Qed.
+
+Ltac ro_multi :=
+  unfold run_zset, multi;
+  repeat match goal with |- context [if ?b then None else _] => destruct b end; simpl;
+  try apply ro_ret; apply ro_run_multi; cbn [zm_body]; intros f Hb seen;
+  repeat match type of Hb with
+  | (match ?x with _ => _ end) = _ => destruct x
+  | None = Some _ => discriminate
+  end; injection Hb as <-;
+  repeat match goal with |- context [match ?x with _ => _ end] => destruct x end; reflexivity.
+
+Lemma ro_zinter argv : readonly (handle_zinter argv).
+Proof. unfold handle_zinter, decode_zinter. ro_multi. Qed.
+Lemma ro_zunion argv : readonly (handle_zunion argv).
+Proof. unfold handle_zunion, decode_zunion. ro_multi. Qed.
+Lemma ro_zdiff argv : readonly (handle_zdiff argv).
+Proof. unfold handle_zdiff, decode_zdiff. ro_multi. Qed.
+
+(** * The read-only command words of all modelled modules *)
+Definition all_readonly_words : list string :=
+  readonly_words ++
+  ["hget"; "hmget"; "hstrlen"; "hvals"; "hrandfield"; "hlen"; "hkeys"; "hgetall"; "hexists";
+   "scard"; "sdiff"; "sinter"; "sintercard"; "sismember"; "smembers"; "smismember"; "srandmember"; "sunion";
+   "zcard"; "zcount"; "zdiff"; "zinter"; "zmscore"; "zrank"; "zrevrank"; "zscore"; "zlexcount"; "zrange"; "zunion"].
+
+Theorem all_readonly_words_sound name h argv :
+  In name all_readonly_words -> handler_of name = Some h -> readonly (h argv).
+Proof.
+  unfold all_readonly_words. intros Hin. apply in_app_or in Hin. destruct Hin as [Hin|Hin].
+  { by apply readonly_words_sound. }
+  simpl in Hin.
+  repeat (destruct Hin as [<-|Hin]; [
+    intros Hh;
+    first [ change (handler_of "hget") with (Some handle_hget) in Hh
+          | change (handler_of "hmget") with (Some handle_hget) in Hh
+          | change (handler_of "hstrlen") with (Some handle_hstrlen) in Hh
+          | change (handler_of "hvals") with (Some handle_hvals) in Hh
+          | change (handler_of "hrandfield") with (Some handle_hrandfield) in Hh
+          | change (handler_of "hlen") with (Some handle_hlen) in Hh
+          | change (handler_of "hkeys") with (Some handle_hkeys) in Hh
+          | change (handler_of "hgetall") with (Some handle_hgetall) in Hh
+          | change (handler_of "hexists") with (Some handle_hexists) in Hh
+          | change (handler_of "scard") with (Some handle_scard) in Hh
+          | change (handler_of "sdiff") with (Some handle_sdiff) in Hh
+          | change (handler_of "sinter") with (Some handle_sinter) in Hh
+          | change (handler_of "sintercard") with (Some handle_sintercard) in Hh
+          | change (handler_of "sismember") with (Some handle_sismember) in Hh
+          | change (handler_of "smembers") with (Some handle_smembers) in Hh
+          | change (handler_of "smismember") with (Some handle_smismember) in Hh
+          | change (handler_of "srandmember") with (Some (handle_srandmember default_pick)) in Hh
+          | change (handler_of "sunion") with (Some handle_sunion) in Hh
+          | change (handler_of "zcard") with (Some handle_zcard) in Hh
+          | change (handler_of "zcount") with (Some handle_zcount) in Hh
+          | change (handler_of "zdiff") with (Some handle_zdiff) in Hh
+          | change (handler_of "zinter") with (Some handle_zinter) in Hh
+          | change (handler_of "zmscore") with (Some handle_zmscore) in Hh
+          | change (handler_of "zrank") with (Some handle_zrank) in Hh
+          | change (handler_of "zrevrank") with (Some handle_zrank) in Hh
+          | change (handler_of "zscore") with (Some handle_zscore) in Hh
+          | change (handler_of "zlexcount") with (Some handle_zlexcount) in Hh
+          | change (handler_of "zrange") with (Some handle_zrange) in Hh
+          | change (handler_of "zunion") with (Some handle_zunion) in Hh ];
+    injection Hh as <-;
+    auto using ro_hget, ro_hstrlen, ro_hvals, ro_hrandfield, ro_hlen, ro_hkeys, ro_hgetall, ro_hexists,
+      ro_scard, ro_sdiff, ro_sinter, ro_sintercard, ro_sismember, ro_smembers, ro_smismember, ro_srandmember,
+      ro_sunion, ro_zcard, ro_zcount, ro_zdiff, ro_zinter, ro_zmscore, ro_zrank, ro_zscore, ro_zlexcount,
+      ro_zrange, ro_zunion |]).
+  destruct Hin.
 Qed.
